@@ -445,6 +445,14 @@ def judge_connectloop(chk, result):
                           "scenario %s: the second SnowflakeConn.Close panicked: %s" % (x["scenario"], x["second_close"]), rp)
         elif x["second_close"] != "ok":
             chk.violation("C15/hang:SnowflakeConn.Close/second", "scenario %s: the second Close did not return" % x["scenario"], rp)
+        when = "session-died-first" if x.get("killed") else "live-session"
+        if x["close_returned"] and not x["melted_after_close"]:
+            chk.violation("C15/not-melted-after-Close/" + when,
+                          "scenario %s: SnowflakeConn.Close returned but the Peers are not melted (connectLoop keeps running); "
+                          "session dead when Close was called: %s" % (x["scenario"], x["session_was_dead"]), rp)
+        if x["close_returned"] and x["has_spare"] and not x["spare_closed"]:
+            chk.violation("C15/peer-left-open-after-Close/" + when,
+                          "scenario %s: SnowflakeConn.Close returned but a held spare peer is still open" % x["scenario"], rp)
         if x["scenario"].startswith("dc-never-opens") and not (x["retried"] and "failed" in x["events"]):
             chk.violation("C15/no-report-or-retry-after-dc-timeout",
                           "scenario %s: after the data channel of the first peer never opened, retried=%s events=%s "
@@ -508,6 +516,8 @@ def run(chk, args):
         "peers in the Peers replay are the hook-free fake *WebRTCPeer{closed: ...} the repository's own tests use; real pion peers only in PeerConnect",
         "quiescence = every operation goroutine finished or parked (chan send/receive, select, sync.Mutex.Lock) in two consecutive goroutine dumps",
         "connectLoop/Close is observed in real time for ReconnectTimeout + 2 s after Close returned",
+        "SessionDies is bound to the real code by the real-time scenarios only (the harness closes the smux session / packet conn through "
+        "the SnowflakeConn's fields, as smux's keep-alive would after 10 min); the Peers replay calls End directly",
         "events are consumed by a mirror of client/snowflake.go ptEventLogger (String() on every event, synchronously, no recover); "
         "pt.Log's own output path is not exercised",
     ]
@@ -531,10 +541,16 @@ def model_check(chk, q):
                 chk.fail("vacuity: actions never taken in %s: %s" % (cfg, zero))
                 return
             chk.cov["coverage_zero_actions"] = zero
-    r = vlib.tlc(SPECDIR, "PeerConnect", "PC_asisD10.cfg", workers=1, timeout=300, keep_prints=False)
+    # what-if: Close returning early on a dead stream must violate AllClosedAfterEnd once SessionDies can happen
+    r = vlib.tlc(SPECDIR, "Peers", "MC_max1_mutC.cfg", workers=1, timeout=300, keep_prints=False)
     chk.add_tlc(r)
-    if r.error != "invariant:NoPanic":
-        chk.fail("vacuity: PeerConnect as-is (D10) configuration does not violate NoPanic: %s" % r.error)
+    if r.error != "invariant:AllClosedAfterEnd":
+        chk.fail("vacuity: SessionDies + early-returning Close does not violate AllClosedAfterEnd: %s" % r.error)
+    if not q:   # D10 is repaired; its vacuity check is kept for the thorough tier only (one JVM start less)
+        r = vlib.tlc(SPECDIR, "PeerConnect", "PC_asisD10.cfg", workers=1, timeout=300, keep_prints=False)
+        chk.add_tlc(r)
+        if r.error != "invariant:NoPanic":
+            chk.fail("vacuity: PeerConnect as-is (D10) configuration does not violate NoPanic: %s" % r.error)
     r = vlib.tlc(SPECDIR, "PeerConnect", "PC_nilevent.cfg", workers=1, timeout=300, keep_prints=False)
     chk.add_tlc(r)
     if r.error != "invariant:NoPanic":
@@ -578,8 +594,10 @@ def asis_counterexamples(chk, q):
     EndReturns: the properties are not vacuous.  The counterexamples of the quiescent-grain configurations
     are the minimal failing schedules; they are replayed on the real code with all other schedules."""
     out = []
-    for cfg, want, mx in (("Gen_max1_asisD8.cfg", "invariant:NoPanic", 1), ("Gen_max1_asisD9.cfg", "invariant:NoStuckEnd", 1),
-                          ("Gen_max2_asisD9.cfg", "invariant:NoStuckEnd", 2)):
+    cfgs = [("Gen_max1_asisD8.cfg", "invariant:NoPanic", 1), ("Gen_max1_asisD9.cfg", "invariant:NoStuckEnd", 1)]
+    if not q:
+        cfgs.append(("Gen_max2_asisD9.cfg", "invariant:NoStuckEnd", 2))
+    for cfg, want, mx in cfgs:
         kind, text = tlc_expect_error(chk, "Peers", cfg)
         if kind != want:
             raise vlib.Inconclusive("vacuity: as-is configuration %s gives %s, expected %s" % (cfg, kind, want))
@@ -617,8 +635,13 @@ def peers(chk, q, rng):
         d9 += [{"op": "StartCollect"}, {"op": "Catch", "ok": True}]
     d9 += [{"op": "PeerClose", "k": 1}, {"op": "StartCollect"}, {"op": "Catch", "ok": True}, {"op": "StartEnd", "c": 1}]
     add(3, d9, "cex-max3")
+    d9m2 = []
+    for i in range(2):
+        d9m2 += [{"op": "StartCollect"}, {"op": "Catch", "ok": True}]
+    d9m2 += [{"op": "PeerClose", "k": 1}, {"op": "StartCollect"}, {"op": "Catch", "ok": True}, {"op": "StartEnd", "c": 1}]
+    add(2, d9m2, "cex-max2")     # = TLC's counterexample of Gen_max2_asisD9 (regenerated in the thorough tier)
     # (a) state graph of the small configurations
-    for cfg, mx, limit, nwalk in ((("Gen_max1.cfg", 1, 700, 150), ("Gen_max2.cfg", 2, 1200, 250)) if q else
+    for cfg, mx, limit, nwalk in ((("Gen_max1.cfg", 1, 700, 150), ("Gen_max2.cfg", 2, 1000, 200)) if q else
                                   (("Gen_max1.cfg", 1, 10 ** 6, 1500), ("Gen_max2.cfg", 2, 10 ** 6, 3000), ("Gen_max2_big.cfg", 2, 10 ** 6, 6000))):
         g, r = dump_graph(chk, cfg)
         paths, total, covered = g.covering(rng, limit)
@@ -629,7 +652,7 @@ def peers(chk, q, rng):
         stats[cfg] = {"states": r.distinct, "edges": len(g.edges), "command_edges": total, "command_edges_covered": covered, "paths": len(paths)}
         chk.note("GenSpec %s: %d states, %d edges, %d/%d command edges covered by %d paths" % (cfg, r.distinct, len(g.edges), covered, total, len(paths)))
     # (b) simulation of a larger configuration
-    for steps in simulate(chk, "Gen_max3_sim.cfg", 150 if q else 3000, 60):
+    for steps in simulate(chk, "Gen_max3_sim.cfg", 120 if q else 3000, 60):
         add(3, steps, "simulate")
     chk.cov["generation"] = stats
     if len(scheds) < 300:
